@@ -441,4 +441,38 @@ def slice_contains(c):
         return [(c.st, Cond("const", True))]
     if all(r is False for r in res):
         return [(c.st, Cond("const", False))]
-    return [(c.st, TOP)]
+    if not c.it.track_content:
+        return [(c.st, TOP)]
+    # compare element by element, front to back; a comparison the path does not decide forks it
+    def scalar(v):
+        n = 0
+        while isinstance(v, Struct) and len(v.f) == 1 and n < 3:
+            v = next(iter(v.f.values()))
+            n += 1
+        return v if isinstance(v, Num) else None
+    xs = scalar(x)
+    out, states = [], [c.st]
+    for i in sorted(lst.items.f):
+        es = scalar(lst.items.f[i])
+        nxt = []
+        for st in states:
+            k = known_eq(st, lst.items.f[i], x)
+            if k is True:
+                out.append((st, Cond("const", True)))
+            elif k is False:
+                nxt.append(st)
+            elif es is None or xs is None:
+                return [(c.st, TOP)]
+            else:
+                s_eq, s_ne = st, st.copy()
+                s_eq.sys.add_eq(es.e - xs.e)
+                s_ne.sys.add_ne(es.e - xs.e)
+                if not s_eq.sys.bottom and s_eq.sys.feasible():
+                    event(s_eq, "decided", "%r == %r" % (es, xs), True)
+                    out.append((s_eq, Cond("const", True)))
+                event(s_ne, "decided", "%r == %r" % (es, xs), False)
+                nxt.append(s_ne)
+        states = nxt
+    for st in states:
+        out.append((st, Cond("const", False)))
+    return out
